@@ -6,7 +6,7 @@ From Coq Require Import String List Bool Arith ZArith.
 Require Import OV.Graph.Syntax OV.Graph.Sem OV.Graph.Wf.
 Require Import OV.Builder.Strings OV.Builder.Modules OV.Builder.ModulesProofs.
 Require Import OV.Builder.Naming OV.Builder.NamingProofs OV.Builder.Trace OV.Builder.TraceProofs.
-Require Import OV.Builder.TraceCF OV.Builder.TraceCFProofs OV.Builder.TraceNames OV.Builder.TraceNamesProofs.
+Require Import OV.Builder.TraceCF OV.Builder.TraceCFProofs OV.Builder.TraceNames OV.Builder.TraceNamesProofs OV.Builder.TraceCFConvProofs.
 Import ListNotations.
 Local Open Scope string_scope.
 
@@ -274,3 +274,42 @@ Example C18_user_name_of_generated_shape :
   user_okb ["x"] tr = false /\
   nodup_strb (all_defined (fst (build_state bcfg_fixed ["x"] tr))) = false.
 Proof. exact ex_user_name_of_generated_shape. Qed.
+
+(* --- the FULL control-flow statement (both directions): for every trace of operator / function calls, If and Loop
+   calls with bodies (any depth, outer-scope capture, declared output names) and literal operands (promoted
+   constants, CastLike), evaluating the built graph EQUALS the direct reading of the trace, failure included: where
+   the reading is undefined (a kernel fails, a value is used outside the scope it was made in, a body returns the
+   wrong number of values, the condition is not a boolean scalar, the nesting exceeds the fuel) the evaluation fails.
+   One hypothesis more than C18_build_computes_trace_cf_partial: "?undefined", the name under which a value id that
+   does not exist would be printed, is not a defined name.  Not covered: Scan and Loop scan outputs. *)
+Theorem C18_build_computes_trace_cf :
+  forall V sem truth trip of_nat of_bool lim lit_val cf fuel ins tr outs args,
+  cf_trace tr = true ->
+  let sf := fst (build_state cf ins tr) in
+  NoDup (all_defined sf) -> ~ In "?undefined" (all_defined sf) ->
+  Forall (lit_ok V lit_val (b_cache sf)) (lits_calls tr) ->
+  List.length args = List.length ins ->
+  eval_graph V sem truth trip of_nat of_bool lim (S fuel) (init_env V lit_val (b_cache sf)) (build cf ins tr outs) args =
+  creplay V sem truth trip of_nat of_bool lim lit_val fuel tr args outs.
+Proof. exact build_computes_trace_cf_eq. Qed.
+Print Assumptions C18_build_computes_trace_cf.
+
+Theorem C18_build_computes_trace_cf_eq_checked :
+  forall V sem truth trip of_nat of_bool lim lit_val cf fuel ins tr outs args,
+  cf_hyps_eqb cf ins tr = true ->
+  List.length args = List.length ins ->
+  eval_graph V sem truth trip of_nat of_bool lim (S fuel)
+             (init_env V lit_val (b_cache (fst (build_state cf ins tr)))) (build cf ins tr outs) args =
+  creplay V sem truth trip of_nat of_bool lim lit_val fuel tr args outs.
+Proof. exact build_computes_trace_cf_eq_checked. Qed.
+Print Assumptions C18_build_computes_trace_cf_eq_checked.
+
+(* non-vacuity of the failure direction: a value made inside the then-branch leaks into the enclosing trace
+   function; the reading is undefined whichever branch is taken, and the graph fails *)
+Example C18_build_computes_trace_cf_failure_instance :
+  cf_hyps_eqb bcfg_fixed ["x"; "c"] ex_leak_trace = true /\
+  creplay Z zsem ztruth ztrip Z.of_nat zof_bool 100 zlit 1 ex_leak_trace [5; 0]%Z [5] = None /\
+  eval_graph Z zsem ztruth ztrip Z.of_nat zof_bool 100 2
+             (init_env Z zlit (b_cache (fst (build_state bcfg_fixed ["x"; "c"] ex_leak_trace))))
+             (build bcfg_fixed ["x"; "c"] ex_leak_trace [5]) [5; 0]%Z = None.
+Proof. exact (conj (proj1 ex_leak) (conj (proj1 (proj2 ex_leak)) ex_leak_graph_fails)). Qed.
